@@ -337,6 +337,9 @@ func (p *RevokeMethod) ReceiveBlock(context vm_context.AccountVmContext, sendBlo
 		return nil, constants.RevokeNotDue
 	}
 
+	// the collateral recorded for this pillar (pillars registered at genesis may carry another amount than
+	// the one a registration locks)
+	amount := new(big.Int).Set(pillar.Amount)
 	pillar.RevokeTime = momentum.Timestamp.Unix()
 	pillar.Amount = big.NewInt(0)
 	common.DealWithErr(pillar.Save(context.Storage()))
@@ -346,7 +349,7 @@ func (p *RevokeMethod) ReceiveBlock(context vm_context.AccountVmContext, sendBlo
 			Address:       types.PillarContract,
 			ToAddress:     pillar.StakeAddress,
 			BlockType:     nom.BlockTypeContractSend,
-			Amount:        constants.PillarStakeAmount,
+			Amount:        amount,
 			TokenStandard: types.ZnnTokenStandard,
 			Data:          []byte{},
 		},
